@@ -9,6 +9,7 @@ import (
 
 	"verifharness/core"
 	"verifharness/gen"
+	"verifharness/lib"
 )
 
 // C01 — re-serialising any accepted input reproduces the consumed bytes.
@@ -65,6 +66,20 @@ func checkC01(c *core.Ctx, pc pcase) {
 	if !bytes.Equal(out.Ser, consumed) {
 		c.Violate(pc.p.Name, "bytes-differ", sh, pc.in, describeDiff(consumed, out.Ser))
 		return
+	}
+	// read-only accessors in between change nothing: every argument-free exported method of the
+	// value (and of the library values those return) is invoked, then the value is serialised again
+	if v := reflect.ValueOf(out.Val); out.Val != nil && !trivialKind(pc.p.Kind) && !isBytesType(v) {
+		nm := len(lib.Observe(out.Val, lib.ObserveOpts{Depth: 1}))
+		after, ok := reserialise(v)
+		if ok && !bytes.Equal(after, consumed) {
+			c.Violate(pc.p.Name, "serialisation-differs-after-accessors-were-called", sh, pc.in,
+				fmt.Sprintf("after %d read-only accessor calls: %s", nm, describeDiff(consumed, after)))
+			return
+		}
+		if ok {
+			c.Bucket("reserialised-after-accessor-sweep/" + pc.p.Kind)
+		}
 	}
 	// serialising again gives the same bytes, also after the caller has overwritten the first
 	// serialisation it was handed (a serialiser must not hand out its own storage)
